@@ -14,7 +14,7 @@ Definition au_tr : list event :=
     (* run B (process 1) is killed after moving one of the two links *)
     Lock 1%nat; MkBak 1%nat; Move 1%nat 2; Kill 1%nat;
     (* run C (process 2) finishes the move, links 3, raises *)
-    Lock 2%nat; MkBak 2%nat; Move 2%nat 1; Ready 2%nat; Submit 2%nat 3; Submit 2%nat 3; Link 2%nat 3; EndExc 2%nat ].
+    Lock 2%nat; MkBak 2%nat; Move 2%nat 1; Ready 2%nat; Submit 2%nat 3; Submit 2%nat 3; Link 2%nat 3; EndExc 2%nat ExcError ].
 
 Example au_run : exists s, run init au_tr = Some s /\
   kept au_tr = [3; 2; 1] /\ names (jobs s) = [3] /\ names (bakl s) = [1; 2] /\ orphans s = [4] /\ lock s = None.
